@@ -1,6 +1,7 @@
 """C11 crash recovery: Badger-backed real cores inside gossip histories, crash points at store-write
-granularity (directory snapshots), real kills with continuation, clean shutdown, restart twice, a directed
-early-signature scenario, real SIGKILLs of a child node process; every recovery is compared with the durable
+granularity (directory snapshots), real kills with continuation, clean shutdown, restart twice, the directed
+early-signature scenario (regression input of fix d90db55: staged on every run, must show identical re-delivery),
+real SIGKILLs of a child node process; every recovery is compared with the durable
 pre-crash observations (oracle) and with the extracted model of Bootstrap run on the write-log prefix."""
 import os, re, subprocess, time
 from concurrent.futures import ThreadPoolExecutor
@@ -26,16 +27,24 @@ CLASSES = ["redelivered-block-differs", "redelivery-missing-block", "unknown-eve
            "self-fork-after-restart", "disagreement-after-restart", "not-persisted-after-restart"]
 
 
+def _exe(name):
+    # vlib.exe (newer vlib): binaries built against a scratch tree ($VERIF_REPO) live in build/alt
+    return vlib.exe(name) if hasattr(vlib, "exe") else os.path.join(vlib.BUILD, name)
+
+
 def _shard(job):
     name, args, path = job
     t0 = time.time()
     with open(path, "w") as fo:
-        p = subprocess.run([vlib.exe("crash")] + [str(a) for a in args], stdout=fo,
+        p = subprocess.run([_exe("crash")] + [str(a) for a in args], stdout=fo,
                            stderr=subprocess.PIPE, env=vlib.GOENV, timeout=3400)
     t1 = time.time()
-    with open(path) as fi:
-        q = subprocess.run([os.path.join(vlib.BUILD, "runner")], stdin=fi, stdout=subprocess.PIPE,
-                           stderr=subprocess.STDOUT, timeout=3400)
+    for attempt in (1, 2):
+        with open(path) as fi:
+            q = subprocess.run([os.path.join(vlib.BUILD, "runner")], stdin=fi, stdout=subprocess.PIPE,
+                               stderr=subprocess.STDOUT, timeout=3400)
+        if q.returncode >= 0:
+            break          # a negative code = killed by a signal (shared machine): one more try, then reported
     return dict(name=name, args=[str(a) for a in args], rc=p.returncode, err=p.stderr.decode("utf-8", "replace")[-1500:],
                 run_rc=q.returncode, runner_out=q.stdout.decode("utf-8", "replace"), path=path,
                 sim_s=t1 - t0, run_s=time.time() - t1)
@@ -66,30 +75,29 @@ def run(ctx):
         for i in range(2):
             jobs.append(("dyn%d" % i, ["-seed", seed * 1000 + 100 + i, "-hist", 1, "-maxn", 4, "-steps", 260, "-dyn", "-fullops", 1,
                                       "-snaprate", 0.004, "-kills", 2], None))
-        jobs.append(("byz0", ["-seed", seed * 1000 + 200, "-hist", 0, "-byz"], None))
+        for i in range(2):
+            jobs.append(("byz%d" % i, ["-seed", seed * 1000 + 200 + i, "-hist", 0, "-byz"], None))
         jobs.append(("sigkill0", ["-seed", seed * 1000 + 300, "-hist", 0, "-sigkill", 3, "-maxn", 4], None))
-        workers = 9
+        workers = 10
     jobs = [(n, a, os.path.join(tdir, n + ".txt")) for (n, a, _) in jobs]
     with ThreadPoolExecutor(max_workers=workers) as ex:
         res = list(ex.map(_shard, jobs))
 
     findings, diffs, seen = [], [], set()
     cases, hist, tot = 0, 0, {}
-    samples, db_block_notes = [], []
-    staged_byz = 0
+    samples = []
+    staged_byz, byz_jobs, byz_identical = 0, 0, 0
     for r in res:
         if r["rc"] != 0:
             findings.append(dict(cls="harness-crash", key="crash %s rc=%d" % (r["name"], r["rc"]), detail=r["err"]))
         m = re.search(r"^DONE (\d+) (\d+)", r["runner_out"], re.M)
         if r["run_rc"] != 0 or not m:
-            diffs.append("runner failed on %s: %s" % (r["name"], r["runner_out"][-600:]))
+            diffs.append("runner failed on %s (rc=%s): %s" % (r["name"], r["run_rc"], r["runner_out"][-600:]))
         else:
             cases += int(m.group(1))
         for l in r["runner_out"].splitlines():
             if l.startswith("DIFF"):
                 diffs.append("%s %s" % (r["name"], l[:500]))
-            elif l.startswith("NOTE db-block-used"):
-                db_block_notes.append("%s %s" % (r["name"], l))
         with open(r["path"]) as f:
             for l in f:
                 if l.startswith("V "):
@@ -103,7 +111,7 @@ def run(ctx):
                     key = "%s scenario=%s kind=%s" % (t[2], sc.group(1) if sc else "?", kind.group(1) if kind else "-")
                     if key not in seen:
                         seen.add(key)
-                        findings.append(dict(cls=t[2], key=key, detail=("%s: " % r["name"]) + l.strip()[:700]))
+                        findings.append(dict(cls=t[2], key=key, detail=("%s [replay: build/crash %s]: " % (r["name"], " ".join(r["args"]))) + l.strip()[:700]))
                 elif l.startswith("Z "):
                     hist += 1
                     for kv in l.split()[2:]:
@@ -115,13 +123,20 @@ def run(ctx):
                     samples.append(l.strip()[:240])
         if r["name"].startswith("byz"):
             with open(r["path"]) as f:
-                staged_byz += 1 if "a:byz-signature-before-block-across-batch-boundary=1" in f.read() else 0
+                txt = f.read()
+                byz_jobs += 1
+                staged_byz += 1 if "a:byz-signature-before-block-across-batch-boundary=1" in txt else 0
+                byz_identical += 1 if "a:byz-redelivery-identical=1" in txt else 0
         if not os.environ.get("VERIF_KEEP_TRACES"):
             try: os.remove(r["path"])
             except OSError: pass
-    # the directed scenario must really have been staged, otherwise the known finding could hide silently
-    if staged_byz == 0:
-        diffs.append("directed early-signature scenario could not be staged (no signature inserted before its block across a batch boundary)")
+    # regression input of fix d90db55 (KNOWN_FINDINGS C11-bootstrap-sigpool-reads-old-blocks, fixed): every directed scenario must
+    # really have been staged (a signature inserted before its block, across a bootstrap batch boundary); a run in which it cannot
+    # be staged proves nothing about the fix and is reported. If the fix is reverted the oracle reports
+    # redelivered-block-differs scenario=early-signature as an ordinary VIOLATION (the known entry is not open any more).
+    if staged_byz < byz_jobs or byz_jobs == 0:
+        diffs.append("directed early-signature scenario (regression input of d90db55) could not be staged in %d of %d runs"
+                     % (byz_jobs - staged_byz, byz_jobs))
     snap_kinds = {k[2:]: v for k, v in tot.items() if k.startswith("s:")}
     writes = {k[4:]: v for k, v in tot.items() if k.startswith("a:w:")}
     cov = dict(
@@ -134,8 +149,9 @@ def run(ctx):
              "head/seq vs the last own written event and vs what the other nodes know, and (model) Recovery.bootstrap on the log prefix "
              "compared on every observable of the recovered node. EVERY write ordinal inside selected operations, random ordinals elsewhere, "
              "real kills (operation abandoned at the k-th write, node replaced by the recovered one, history continues: agreement, fresh "
-             "self-event, persistence of post-restart writes, restart twice), clean shutdown of every Badger node, a directed early-signature "
-             "scenario, real SIGKILLs of a child node process. non-trivial = recovery checks whose crash point lies inside an operation "
+             "self-event, persistence of post-restart writes, restart twice), clean shutdown of every Badger node, the directed early-signature "
+             "scenario (a signature inserted before its block across a bootstrap batch boundary: regression input of fix d90db55), real SIGKILLs "
+             "of a child node process. non-trivial = recovery checks whose crash point lies inside an operation "
              "(taken from within a store write, not at an operation boundary)",
         samples=samples,
         histogram=dict(crash_points_after_write_kind=snap_kinds, writes_logged=writes,
@@ -144,8 +160,7 @@ def run(ctx):
                        fresh_self_event_checks=tot.get("a:fresh-self-event-checked", 0), max_events_in_a_recovery=tot.get("maxevents", 0),
                        sigkills=tot.get("a:sigkill", 0), sigkill_too_early=tot.get("a:sigkill-too-early", 0),
                        joins=tot.get("a:node-joined", 0), leaves=tot.get("a:node-left", 0),
-                       model_recoveries_that_used_a_database_block=len(db_block_notes)),
+                       regression_early_signature=dict(runs=byz_jobs, staged=staged_byz, identical_redelivery=byz_identical)),
         traces_validated_against_impl=hist, shards=[dict(name=r["name"], args=" ".join(r["args"]), sim_s=round(r["sim_s"], 1),
-                                                        model_s=round(r["run_s"], 1)) for r in res],
-        notes_db_block=db_block_notes[:5])
+                                                        model_s=round(r["run_s"], 1)) for r in res])
     return dict(findings=findings[:12], coverage=cov, corr_diffs=diffs[:10])
